@@ -592,7 +592,7 @@ def r6(ctx):
     import c01
     rule = Rule("C02.R6", "the decrypting session was keyed by a handshake the claimed peer completed (identity binding of the handshake, gated session creation)",
                 floor=8, engine="A-prov + A-dom + A-who (rules shared with C01)")
-    subs = list(c01.r1_r2(ctx)) + [c01.r3(ctx)]
+    subs = list(c01.r1_r2(ctx)) + [c01.r3(ctx), c01.r5(ctx)]
     for sub in subs:
         sub.finish()
         rule.functions |= sub.functions
